@@ -1,6 +1,7 @@
 import PfModel.DriverLib
 import PfModel.Model.Storage
-/-! Driver for C07 (`storage.run`, `storage.normalize`). Run: `lake env lean --run Driver/C07.lean < requests.jsonl`. -/
+/-! Driver for C07 (`storage.run`, `storage.normalize`, `storage.construct`, `storage.init_arrays`, `storage.registry`,
+`storage.conc`). Run: `lake env lean --run Driver/C07.lean < requests.jsonl`. -/
 open Lean PF PF.Drv PF.St
 
 def getGeom (j : Json) : R Geom := do
@@ -54,18 +55,34 @@ def putCell (g : Geom) : Cell Int → Json
     if g.internal.isEmpty then (match el with | [v] => jInt v | _ => jObj [("ill-formed-element", jList jInt el)])
     else jList jInt el
 
+def putContainer : Container → String
+  | .nothing => "None"
+  | .raised => "raised"
+  | .element => "element"
+  | .maskedObject => "MaskedArray[object]"
+  | .maskedBool => "MaskedArray[bool]"
+  | .boolList => "list[bool]"
+  | .bool => "bool"
+
+/-- array-shaped results carry their container (`Obs.container`, the function `C07_container_of_op` is about) -/
 def putObs (g : Geom) : Obs Int → Json
   | .unit => jStr "ok"
   | .err e => jObj [("err", putErr e)]
   | .scalar c => jObj [("v", putCell g c)]
-  | .arr s cs => jObj [("shape", jList jNat s), ("flat", jList (putCell g) cs)]
-  | .bools s bs => jObj [("shape", jList jNat s), ("flat", jList jBool bs)]
+  | .arr s cs => jObj [("shape", jList jNat s), ("flat", jList (putCell g) cs), ("c", jStr (putContainer (Obs.arr s cs).container))]
+  | .bools s bs => jObj [("shape", jList jNat s), ("flat", jList jBool bs), ("c", jStr (putContainer (Obs.bools s ([] : List Bool) : Obs Int).container))]
   | .blist bs => jObj [("list", jList jBool bs)]
   | .bool b => jObj [("b", jBool b)]
 
 def putNK : NK → Json
   | .idx k => jNat k
   | .slc a b c => jArr [jStr "s", jOpt jInt a, jOpt jInt b, jOpt jInt c]
+
+def putConstruct : Except CErr Geom → Json
+  | .ok g => jObj [("ok", jObj [("shape", jList jNat g.shape), ("internal", jList jNat g.internal), ("mask", jList jBool g.mask),
+                                 ("wf", jBool (decide g.WF))])]
+  | .error .value => jObj [("err", jStr "ValueError")]
+  | .error .type => jObj [("err", jStr "TypeError")]
 
 def handle (m : String) (a : Json) : R Json := do
   match m with
@@ -83,6 +100,35 @@ def handle (m : String) (a : Json) : R Json := do
     let put : Except Err (List NK) → Json := fun r =>
       match r with | .ok nk => jObj [("ok", jList putNK nk)] | .error e => jObj [("err", putErr e)]
     return jObj [("fixed", put (normalizeKey g fd key)), ("pinned", put (normalizeKeyPinned g fd key))]
+  | "storage.construct" =>
+    -- args: shape, internal (list | null), mask (list | null)
+    let a : CArgs := { shape := ← listF asNat a "shape", internal := ← asOpt (asList asNat) (← fld a "internal"),
+                       mask := ← asOpt (asList asBool) (← fld a "mask") }
+    return putConstruct (construct a)
+  | "storage.init_arrays" =>
+    let full ← listF asNat a "full"
+    let mask ← listF asBool a "mask"
+    let ca := initArrays full mask
+    return jObj [("args", jObj [("shape", jList jNat ca.shape), ("internal", jOpt (jList jNat) ca.internal),
+                                ("mask", jOpt (jList jBool) ca.mask)]), ("result", putConstruct (construct ca))]
+  | "storage.registry" =>
+    return jList (fun (b : Backend) => jObj [("id", jStr b.id), ("cls", jStr b.cls),
+      ("requires_serialization", jBool b.requiresSerialization), ("dump_in_subprocess", jBool b.dumpInSubprocess),
+      ("backing", jStr (match b.backing with | .dict => "dict" | .files => "file")),
+      ("dumps_in_worker", jBool (dumpsHere b false false)), ("dumps_in_parent", jBool (dumpsHere b true false)),
+      ("temp_folder_without_run_folder", jBool (getsTempFolder b false)),
+      ("lookup", jBool (match getStorageClass b.id with | .ok b' => b' == b | .error _ => false))]) registry
+  | "storage.conc" =>
+    -- args: trace = [[writer, cell, [atoms]], ...], cells = [cell, ...], writers = n
+    let t ← (← asArr (← fld a "trace")).mapM (fun e => do
+      match ← asArr e with
+      | [w, c, v] => return ({ w := ← asNat w, cell := ← asNat c, val := ← asList asInt v } : WEv Int)
+      | _ => .error "event expected as [writer, cell, value]")
+    let cells ← listF asNat a "cells"
+    let n ← natF a "writers"
+    let fin := runW ([] : Files Int) t
+    return jObj [("final", jList (fun c => jOpt (jList jInt) (alook fin c)) cells),
+                 ("candidates", jList (fun c => jList (fun w => jOpt (jList jInt) (lastTo (projW t w) c)) (List.range n)) cells)]
   | _ => .error s!"unknown entry {m}"
 
 def main : IO Unit := loop handle
